@@ -10,7 +10,7 @@ META = {
                   "source (listed files with tokens and flags); TLC checks for every option set and processing order that the designed machine yields "
                   "target = listed minus excluded with equal tokens, truthful counts (extracted + skipped = source), skips only for reasons an option names, "
                   "verify => equal, termination; and that the implementation machine (the code's deviations as named actions) violates them. TLC enumerates "
-                  "source classes (V1..V4 x attributes x empty file x weak (signature) file x source sector size 512 B / 16 KiB; plain, raw, encrypted, "
+                  "source classes (V1..V4 x attributes x empty file x weak (signature) file x source sector size 512 B / 16 KiB x provenance (built, modified in place, embedded at 512/1024, superset listfile); plain, raw, encrypted, "
                   "fix-key compressed / raw, multi-sector files sized so that every class changes between single-unit and multi-sector layout; store-raw "
                   "boundary files) x rebuild options (target version, compression / sector-size override 512 B / 4 KiB / 16 KiB, skip filters, verify, "
                   "list-only: full product in thorough, all single deviations plus selected pairs in quick); every case is run through the real rebuild_archive, then every listed source name is read from the target, the target is listed and "
@@ -84,7 +84,7 @@ def run(ctx, cases_override=None):
         "exhaustive_part": "thorough: full product of source classes x options (minus combinations that list_only / skip_signatures make equivalent); "
                            "quick: all single deviations from the default options and the pairs target x compression, target x verify, skip_encrypted x verify, compression x sector size, compression x verify",
     }
-    assumptions = ["sources are ArchiveBuilder products that read back themselves", "signature files are weak-signature files by name ((signature), 72 bytes, listed); their cryptographic validity is not part of C07",
+    assumptions = ["sources are ArchiveBuilder products, optionally modified in place through MutableArchive, embedded behind a prefix, or built with a superset listfile; sources without any listfile are not covered", "signature files are weak-signature files by name ((signature), 72 bytes, listed); their cryptographic validity is not part of C07",
                    "single process; the file system does not fail"]
     return core.finish(ctx, "model_checking", cov, assumptions, res["bad"], sig_fn=sig, trace=trace)
 
